@@ -3,6 +3,7 @@
 -/
 import TealerModel.Props.Common
 import TealerModel.Props.Tie
+import TealerModel.Props.TieMatchers
 import TealerModel.Lemmas.IntLeaf
 namespace Tealer.C06
 
@@ -110,5 +111,16 @@ theorem C06_leaf_matcher_direct (ic : Option (List Nat)) (a : Ast) (p p1 p2 o1 o
       (OSet.ofList (assertedIntValues c n sizesU), OSet.diff sizesU (OSet.ofList (assertedIntValues c n sizesU))) := by
   have := IntLeaf.intSingle_direct ic a p p1 p2 o1 o2 c n hp hargs h1 h2
   simpa [intUniv] using this
+
+/-- THE MATCHER IS THE PYTHON'S.  `_get_asserted_groupsizes` and `_get_asserted_groupindices`, translated statement by
+    statement from /repo's Python on this run (with `is_int_push_ins` translated too), compute exactly the model's
+    `intSingle` on the stack value the Python holds (`treeOf`), for every block and every instruction of it -/
+theorem C06_tie_matchers (intcs : Option (List Nat)) (ins : List Ins) (kind : KeyKind) (n p o : Nat) :
+    intSingle intcs (constructAst ins) ⟨"GroupSize", kind⟩ p =
+        Generated.getAssertedGroupsizes (TieM.envOf intcs) (TieM.envOf intcs) (treeOf (constructAst ins) (n + 1) (some (p, o))) ∧
+      ∀ base, base ≠ "GroupSize" → intSingle intcs (constructAst ins) ⟨base, kind⟩ p =
+        Generated.getAssertedGroupindices (TieM.envOf intcs) (TieM.envOf intcs) (treeOf (constructAst ins) (n + 1) (some (p, o))) :=
+  ⟨TieM.groupsizes_tie intcs _ (TieM.arity_constructAst ins) kind n p o,
+   fun base hb => TieM.groupindices_tie intcs _ (TieM.arity_constructAst ins) base hb kind n p o⟩
 
 end Tealer.C06
